@@ -1072,7 +1072,33 @@ def replay_prefix(prop, origin):
 def write_violation(prop, viol):
     recipe = minimise(viol["recipe"], prop, viol["class"])
     again = replay_session(recipe)
-    if not same(again, prop, viol["class"]) and viol.get("origin"):
+    reproduces_alone = same(again, prop, viol["class"])
+    if reproduces_alone and viol.get("origin"):
+        # this process has already executed other histories (regression
+        # replays, minimisation): only a FRESH interpreter can tell whether
+        # the minimised history fails on its own
+        import subprocess
+        import tempfile
+        probe = {"property": prop, "violation_class": viol["class"],
+                 "document": recipe["document"],
+                 "history": recipe["history"],
+                 "knobs": recipe.get("knobs", {}),
+                 "cli": recipe.get("cli", False)}
+        with tempfile.NamedTemporaryFile(
+                "w", suffix=".json", delete=False, dir="/tmp") as fhnd:
+            json.dump(probe, fhnd)
+        try:
+            proc = subprocess.run(
+                [sys.executable, os.path.abspath(__file__), "--property",
+                 prop, "--replay", fhnd.name],
+                capture_output=True, text=True, timeout=300,
+                env=dict(os.environ))
+            reproduces_alone = proc.returncode == 1
+        except subprocess.TimeoutExpired:
+            reproduces_alone = False
+        finally:
+            os.unlink(fhnd.name)
+    if not reproduces_alone and viol.get("origin"):
         payload = {
             "property": prop, "engine": "edit-session",
             "mode": "shard-prefix", "violation_class": viol["class"],
